@@ -103,6 +103,9 @@ def run(tier, seed, replay=None):
         if rng.random() < 0.15:
             p.trait_unsafe = True
         plans.append(p)
+    # defaults of trait parameters that the blocks rely on (`trait Kita<P0 = u8>` + `impl<..> Kita for T`): the helper trait, the helper
+    # impls and the main impl's helper reference must agree on the argument count (seeded change C03g)
+    plans += [g.default_vs_explicit_plan() for _ in range(max(4, n // 25))]
     progs = []
     for p in plans:
         progs.append(("r", p.reference_program()))
